@@ -10,7 +10,7 @@ From Coq Require Import List NArith Bool Permutation.
 Import ListNotations.
 From Cffi Require Import C25.Model C23.Order.
 
-Inductive srcfile := Recompiler | Opcode | ModelPy | CParser.
+Inductive srcfile := Recompiler | Opcode | ModelPy | CParser | ApiPy.
 Inductive container := CSet | CDict | COther.
 
 Inductive use :=
